@@ -172,7 +172,7 @@ def check(ctx: Ctx):
     G.check_go_order(ctx, hg2, "R-PAIR")
     n_es = G.check_enter_state_last(ctx, [m_ for m_ in repo.cls(MGM2, "Mgm2Computation").methods.values()], "R-PAIR")
     if n_es < 8:
-        raise AnalysisError(f"MGM2: only {n_es} paths entering a state found (8 confirmed by reading)")
+        ctx.defer(f"MGM2: only {n_es} paths entering a state found (8 confirmed by reading)")
     G.check_offer_slots(ctx, repo, "R-PAIR")
     ffg2 = FuncFacts(go2.node)
     mv = [c for c in walk_no_nested(go2.node) if isinstance(c, ast.Call) and is_self_attr(c.func, "value_selection")]
